@@ -165,13 +165,13 @@ def theorem_info(pid):
     if not os.path.exists(pf):
         return None
     text = open(pf).read()
-    names = re.findall(r'^(?:Theorem|Corollary)\s+(\w+)', text, flags=re.M)
+    names = re.findall(r'^\s*(?:Theorem|Corollary)\s+(\w+)', text, flags=re.M)
     out = os.path.join(BUILD, 'assumptions', 'Prop_%s.txt' % pid)
     vo = pf[:-2] + '.vo'
     compiled = os.path.exists(vo) and os.path.getmtime(vo) >= os.path.getmtime(pf)
     assumptions = open(out).read() if os.path.exists(out) and compiled else ''
     statements = []
-    for m in re.finditer(r'^(?:Theorem|Corollary)\s+(\w+)\s*:?(.*?)\nProof\.', text, flags=re.M | re.S):
+    for m in re.finditer(r'^\s*(?:Theorem|Corollary)\s+(\w+)\s*:?(.*?)\n\s*Proof\.', text, flags=re.M | re.S):
         statements.append({'theorem': m.group(1), 'statement': ' '.join(m.group(2).split())[:600]})
     return {'file': pf, 'names': names, 'compiled': compiled, 'assumptions': assumptions, 'statements': statements}
 
